@@ -29,8 +29,10 @@ import (
 )
 
 type CaseC struct {
-	Type cfggen.Type `json:"type"`
-	Val  cfggen.Val  `json:"val"`
+	Type  cfggen.Type `json:"type"`
+	Val   cfggen.Val  `json:"val"`
+	Type2 cfggen.Type `json:"type2,omitempty"` // a second value serialised before the first result is read
+	Val2  cfggen.Val  `json:"val2,omitempty"`
 }
 
 // replaceStrings substitutes some string leaves by arbitrary Unicode strings.
@@ -91,12 +93,31 @@ func genC(t *rapid.T) CaseC {
 	if rapid.IntRange(0, 15).Draw(t, "null") == 15 {
 		v = cfggen.Null()
 	}
-	return CaseC{Type: ty, Val: v}
+	c := CaseC{Type: ty, Val: v}
+	if rapid.IntRange(0, 3).Draw(t, "second-value") > 0 {
+		c.Type2 = genValueType(t)
+		c.Val2 = cfggen.WidenNumbers(t, replaceStrings(t, cfggen.GenVal(t, c.Type2)), c.Type2)
+	}
+	return c
 }
 
 func checkC(c CaseC) *core.Violation {
+	k := newKeeper()
+	v := checkC1(c.Val, c.Type, c.Val2, c.Type2, k)
+	if v == nil && c.Val2.K != "" {
+		v = checkC1(c.Val2, c.Type2, cfggen.Val{}, cfggen.Type{}, k)
+	}
+	return k.finish(v)
+}
+
+func checkC1(val cfggen.Val, ty cfggen.Type, val2 cfggen.Val, ty2 cfggen.Type, k *keeper) *core.Violation {
+	c := CaseC{Type: ty, Val: val}
 	v := cfggen.Typed(c.Val, c.Type)
-	src := hclwrite.TokensForValue(v).Bytes()
+	src := k.keep("Tokens.Bytes", hclwrite.TokensForValue(v).Bytes())
+	if val2.K != "" {
+		// another value is serialised before the first result is parsed
+		k.keep("Tokens.Bytes", hclwrite.TokensForValue(cfggen.Typed(val2, ty2)).Bytes())
+	}
 	expr, diags := hclsyntax.ParseExpression(src, "", startPos)
 	if diags.HasErrors() {
 		cause := "other"
@@ -151,6 +172,9 @@ func classifyC(c CaseC) core.Class {
 	if c.Val.IsNull() {
 		cl.Labels = append(cl.Labels, "null")
 	}
+	if c.Val2.K != "" {
+		cl.Labels = append(cl.Labels, "results:two-values-serialised")
+	}
 	nums := map[string]bool{}
 	cfggen.NumClasses(c.Val, false, nums)
 	for k := range nums {
@@ -164,7 +188,7 @@ func classifyC(c CaseC) core.Class {
 func TestC20c(t *testing.T) {
 	core.Run(t, core.Spec[CaseC]{
 		Property: "C20", Sub: "c",
-		Rule: "cty values of type string/number/bool, list/set/map of these, map of lists, object, or untyped tuple/object trees (strings from a pool of template/escape/comment look-alikes and arbitrary Unicode strings incl. control and non-printable runes; numbers: int64 boundaries and +-1 around them, uint64 above 2^63 up to MaxUint64, 2^64, 2^128, -2^70, 1e20, 1e308, 1e-7, 0.1, quotients such as 1/3 at cty precision, -0; also nested in lists/objects/maps), occasionally null. Oracle: TokensForValue(v).Bytes() parses as an expression and evaluates to v (after conversion to v's type, as documented for collection literals). Non-trivial: a collection/structural value or a string that needs escaping; distinct = (type kind, non-printable, needs escaping, null, size<=3)",
+		Rule: "cty values of type string/number/bool, list/set/map of these, map of lists, object, or untyped tuple/object trees (strings from a pool of template/escape/comment look-alikes and arbitrary Unicode strings incl. control and non-printable runes; numbers: int64 boundaries and +-1 around them, uint64 above 2^63 up to MaxUint64, 2^64, 2^128, -2^70, 1e20, 1e308, 1e-7, 0.1, quotients such as 1/3 at cty precision, -0; also nested in lists/objects/maps), occasionally null. Oracle: two values are serialised and every returned slice must stay what it was; TokensForValue(v).Bytes() parses as an expression and evaluates to v (after conversion to v's type, as documented for collection literals). Non-trivial: a collection/structural value or a string that needs escaping; distinct = (type kind, non-printable, needs escaping, null, size<=3)",
 		Gen:  genC, Check: checkC, Classify: classifyC,
 		Assumptions: []string{"go-cty conversion and number parsing are the trusted base"},
 	})
@@ -173,14 +197,20 @@ func TestC20c(t *testing.T) {
 // ---------------------------------------------------------------- (d)
 
 type CaseD struct {
-	Schema cfggen.BodyS `json:"schema"`
-	Inst   cfggen.BodyI `json:"inst"`
+	Schema cfggen.BodyS  `json:"schema"`
+	Inst   cfggen.BodyI  `json:"inst"`
+	Inst2  *cfggen.BodyI `json:"inst2,omitempty"` // a second instance encoded before the first file is read
 }
 
 func genD(t *rapid.T) CaseD {
 	s := cfggen.GenSchemaPlain(t, rapid.IntRange(0, 2).Draw(t, "depth"))
 	in := cfggen.GenInstance(t, &s)
-	return CaseD{Schema: s, Inst: in}
+	c := CaseD{Schema: s, Inst: in}
+	if rapid.IntRange(0, 3).Draw(t, "second-instance") > 0 {
+		in2 := cfggen.GenInstance(t, &s)
+		c.Inst2 = &in2
+	}
+	return c
 }
 
 func instNonPrintable(b *cfggen.BodyI) bool {
@@ -248,12 +278,31 @@ func instFloat64Quirk(s *cfggen.BodyS, in *cfggen.BodyI) bool {
 }
 
 func checkD(c CaseD) *core.Violation {
+	k := newKeeper()
+	v := checkD1(c, k)
+	if v == nil && c.Inst2 != nil {
+		v = checkD1(CaseD{Schema: c.Schema, Inst: *c.Inst2}, k)
+	}
+	return k.finish(v)
+}
+
+func checkD1(c CaseD, k *keeper) *core.Violation {
 	want := cfggen.ExpectedStruct(&c.Schema, &c.Inst, nil)
 	ptr := reflect.New(want.Type())
 	ptr.Elem().Set(want)
 	f := hclwrite.NewEmptyFile()
 	gohcl.EncodeIntoBody(ptr.Interface(), f.Body())
-	src := f.Bytes()
+	src := k.keep("File.Bytes", f.Bytes())
+	if c.Inst2 != nil {
+		// the second instance is encoded and serialised before the first file is read
+		w2 := cfggen.ExpectedStruct(&c.Schema, c.Inst2, nil)
+		p2 := reflect.New(w2.Type())
+		p2.Elem().Set(w2)
+		f2 := hclwrite.NewEmptyFile()
+		gohcl.EncodeIntoBody(p2.Interface(), f2.Body())
+		k.keep("File.Bytes", f2.Bytes())
+		k.keep("Tokens.Bytes", f2.BuildTokens(nil).Bytes())
+	}
 	file, diags := hclsyntax.ParseConfig(src, "", startPos)
 	if diags.HasErrors() {
 		cause := "other"
@@ -342,6 +391,9 @@ func classifyD(c CaseD) core.Class {
 		cl.Labels = append(cl.Labels, "blocks:repeated")
 	}
 	cl.Labels = append(cl.Labels, fmt.Sprintf("nesting:%d", maxd))
+	if c.Inst2 != nil {
+		cl.Labels = append(cl.Labels, "results:two-encodings-serialised")
+	}
 	cl.NonTrivial = nb > 0
 	cl.Fingerprint = fmt.Sprintf("d=%d|lab=%v|rep=%v|nb=%d|na=%d", maxd, lab, rep, minInt(nb, 4), minInt(len(c.Inst.Attrs), 4))
 	return cl
@@ -350,7 +402,7 @@ func classifyD(c CaseD) core.Class {
 func TestC20d(t *testing.T) {
 	core.Run(t, core.Spec[CaseD]{
 		Property: "C20", Sub: "d",
-		Rule: "schemas restricted to what gohcl.EncodeIntoBody documents as supported (no remain/any fields) with conforming instances, built as Go structs (reflect.StructOf, yaotl tags: attr/optional/pointer, int64/uint64/float64 number fields with boundary, >2^63, 1e20, 1e308 values, block/[]block/[]*block, labels); Oracle: EncodeIntoBody into an empty file -> Bytes() -> parse -> DecodeBody gives an equal struct. Non-trivial: at least one nested block; distinct = (nesting, labelled, repeated, #blocks<=4, #attrs<=4)",
+		Rule: "schemas restricted to what gohcl.EncodeIntoBody documents as supported (no remain/any fields) with conforming instances, built as Go structs (reflect.StructOf, yaotl tags: attr/optional/pointer, int64/uint64/float64 number fields with boundary, >2^63, 1e20, 1e308 values, block/[]block/[]*block, labels); Oracle: two instances are encoded and serialised, every returned slice must stay what it was; EncodeIntoBody into an empty file -> Bytes() -> parse -> DecodeBody gives an equal struct. Non-trivial: at least one nested block; distinct = (nesting, labelled, repeated, #blocks<=4, #attrs<=4)",
 		Gen:  genD, Check: checkD, Classify: classifyD,
 		Assumptions: []string{"nil and empty slices/maps are the same Go result"},
 	})
